@@ -631,6 +631,9 @@ def gen_program(rnd, feats, settings=None, nsteps=None, regions=None):
     if rnd.random() < 0.85:
         x, y = g.pt(False if rnd.random() < 0.85 else None)
         g.move(x=x, y=y, z=0.2, feed=1200)
+    if feats.get("start_inch") and rnd.random() < feats["start_inch"]:
+        g.unit = 25.4
+        g.emit("G20")
     if feats.get("start_rel") and rnd.random() < feats["start_rel"]:
         g.abs = False
         g.emit("G91")
